@@ -78,10 +78,15 @@ func zzMayFail(id string) uint8 {
 
 func zzCmdText(id string, code uint8) string {
 	if zz.Native() {
+		if zzProbeSleep { // the probe lasts long enough for independent probes to be seen overlapping
+			return fmt.Sprintf("echo S:%s; sleep 0.05; echo F:%s:%d; exit %d", id, id, code, code)
+		}
 		return fmt.Sprintf("echo S:%s; echo F:%s:%d; exit %d", id, id, code, code)
 	}
 	return "probe " + id
 }
+
+var zzProbeSleep bool
 
 func (g *zzGraph) build(failing func(id string) bool) *ast.Taskfile {
 	g.exit = map[string]uint8{}
